@@ -229,12 +229,15 @@ End Steps.
 Definition restored (b : build) (T : path) (t : tree) : Prop :=
   (forall d, In d (b_dirs b) -> lstat t (T ++ d) = Ok Dir) /\
   (forall l dest, In (l, dest) (b_links b) -> readlink t (T ++ l) = Ok dest) /\
-  (forall f data, In (f, data) (b_files b) -> lstat t (T ++ f) = Ok (File data)).
+  (forall f data, In (f, data) (b_files b) -> lstat t (T ++ f) = Ok (File data) /\ read_file t (T ++ f) = Ok data).
 
 Definition restoredb (b : build) (T : path) (t : tree) : bool :=
   forallb (fun d => match lstat t (T ++ d) with Ok Dir => true | _ => false end) (b_dirs b)
   && forallb (fun l => match readlink t (T ++ fst l) with Ok d => dest_eqb d (snd l) | _ => false end) (b_links b)
-  && forallb (fun f => match lstat t (T ++ fst f) with Ok (File d) => nlist_eqb d (snd f) | _ => false end) (b_files b).
+  && forallb (fun f => match lstat t (T ++ fst f), read_file t (T ++ fst f) with
+                       | Ok (File d), Ok d' => nlist_eqb d (snd f) && nlist_eqb d' (snd f)
+                       | _, _ => false
+                       end) (b_files b).
 
 (** the containers the validator is given ([tlc.WalkDir]): no empty path, all paths distinct,
     every proper prefix of an entry is a directory listed before it, and nothing is listed
